@@ -84,9 +84,17 @@ class Task:
             # when the connection is established
             return
         task = asyncio.create_task(self._start_internal(), name=self.name)
-        if self.xknx is None or self._task is not None:
+        if (
+            self.xknx is None
+            or self._task is not None
+            or (
+                self.restart_after_reconnect
+                and not self.xknx.connection_manager.connected.is_set()
+            )
+        ):
             # with an eager task factory the first step has already run: it removed
-            # this task or started it again - this instance is not the current one
+            # this task, started it again or the connection was lost meanwhile -
+            # this instance is not the one to keep
             task.cancel()
             return
         self._task = task
